@@ -15,7 +15,7 @@ func init() {
 		Explain:    "Decides structural necessary conditions of `all API flavors of one schema are interchangeable` on the wire: (1) makeCoderMethods (open/hybrid structs) and makeOpaqueCoderMethods (opaque structs) build each field's coder info from the same expressions for field number, wire tag, tag size, Go type, coder functions, child message info, required flag and validation info, sort the fields by the same comparators (by number, then oneofs last through LegacyFieldOrder) and install the same fast-path methods and support flags — differences are limited to a reviewed table (field offset, pointer-ness, presence index, lazy flag); (2) the opaque message/group coders satisfy the same size/append and coder-row agreement rules as the open ones; (3) presence-bit constants in generated opaque code match the runtime's slot numbering (C11 rules); (4) in every reflection accessor table (open and opaque) the `clear` of a field whose `mutable` returns stored state resets that storage, so Clear followed by Mutable behaves the same in every flavor; (5) the generated flavors' deterministic map-key comparator and the reflection comparator used by dynamicpb order keys identically. The fast-path merge loop is evaluated for every field state (R-MERGE-LOOP): a populated source field is merged, lazy operands are decoded first on both sides.",
 		NotCovered: "value-level interchangeability (bytes, JSON, text) of concrete messages across flavors; dynamicpb; the reflection API differences between flavors.",
 		Quick:      all("./internal/impl", "./internal/order", "./cmd/protoc-gen-go/internal_gengo", "./internal/testprotos/lazy/...", "./internal/testprotos/mixed"),
-		Thorough:   all("./..."),
+		Thorough:   allAndLegacy("./internal/impl", "./internal/order", "./cmd/protoc-gen-go/internal_gengo", "./internal/testprotos/lazy/...", "./internal/testprotos/mixed"),
 		Run: func(c *Ctx) {
 			c.ruleMergeLoop("R-MERGE-LOOP")
 			c.ruleCoderCtorParity("R-CODER-CTOR-PARITY")
